@@ -83,7 +83,10 @@ def build(project: Project) -> LexModel:
     funcs = {}
     for name in ("_is_valid_identifier_start", "_is_valid_identifier_char"):
         funcs[name] = lx.func(name).node
-    pe = rx.PredicateEval(funcs, {"OPERATOR_CHARS": lm.operator_chars})
+    def fold_lexer_const(name: str):
+        return project.try_fold(lx, lx.const_node(name)) if lx.has_const(name) else None
+
+    pe = rx.PredicateEval(funcs, {"OPERATOR_CHARS": lm.operator_chars}, lookup=fold_lexer_const)
     lm.start_chars = frozenset(c for c in lm.alphabet.symbols if pe.call("_is_valid_identifier_start", c))
     lm.body_chars = frozenset(c for c in lm.alphabet.symbols if pe.call("_is_valid_identifier_char", c))
 
